@@ -163,9 +163,16 @@ static void run_case (char *id, char *mode, char *engine, char *target, char *mi
   MIR_load_external (ctx, "helper", c06_helper);
   MIR_load_external (ctx, "memset", memset);
   int gen_p = strncmp (engine, "gen", 3) == 0, lazy_p = strcmp (engine, "lazy") == 0;
+  char *dump = NULL;
+  size_t dump_len = 0;
+  FILE *dump_f = NULL;
   if (gen_p || lazy_p) {
     MIR_gen_init (ctx);
     MIR_gen_set_optimize_level (ctx, gen_p ? (unsigned) (engine[3] - '0') : 2);
+    if (gen_p && getenv ("C06_DUMP") != NULL && (dump_f = open_memstream (&dump, &dump_len)) != NULL) {
+      MIR_gen_set_debug_file (ctx, dump_f);
+      MIR_gen_set_debug_level (ctx, 2);
+    }
   }
   MIR_item_t f = find_func (ctx, c06 ? "f" : "caller");
   if (f == NULL) {
@@ -222,6 +229,18 @@ static void run_case (char *id, char *mode, char *engine, char *target, char *mi
     puthex (stdout, c05_outs, 2048);
     printf (" pimg=");
     puthex (stdout, c05_img, 256);
+    if (dump_f != NULL) { /* the generator's own listing of the function after prologue/epilogue insertion */
+      fflush (dump_f);
+      const char *key = "MIR after forming prolog/epilog";
+      char *q = dump, *last = NULL;
+      while (q != NULL && (q = strstr (q, key)) != NULL) last = q, q++;
+      if (last != NULL) {
+        char *end = strstr (last, "\n+++");
+        size_t n = end != NULL ? (size_t) (end - last) : strlen (last);
+        printf (" dump=");
+        puthex (stdout, (unsigned char *) last, n);
+      }
+    }
     printf ("\n");
   }
   fflush (stdout);
